@@ -57,7 +57,7 @@ structure Input (α : Type) where
 
 section generic
 variable {α : Type} [Add α] [Sub α] [Mul α] [Div α] [Zero α] [One α] [NatCast α] [Neg α]
-variable [LT α] [DecidableLT α] [Min α] [Max α] [Rsa.HasSqrt α]
+variable [LT α] [DecidableLT α] [LE α] [DecidableLE α] [Min α] [Max α] [Rsa.HasSqrt α]
 
 /-- shrinkage intensity and which side of the clip it is on (for coverage tags) -/
 def lamInfo (m : Method) (rows : List (Row α)) (dof : α) (p : Nat) : Option α × String :=
@@ -134,7 +134,7 @@ def parseDof {α} (num : Json → R α) (j : Json) : R (DofArg α) :=
 
 section run
 variable {α : Type} [Add α] [Sub α] [Mul α] [Div α] [Zero α] [One α] [NatCast α] [Neg α]
-variable [LT α] [DecidableLT α] [Min α] [Max α] [Rsa.HasSqrt α]
+variable [LT α] [DecidableLT α] [LE α] [DecidableLE α] [Min α] [Max α] [Rsa.HasSqrt α]
 
 def runG (num : Json → R α) (out : α → Json) (toRat : α → Option Rat) (j : Json) : R Json := do
   let kind ← fld j "kind" >>= asStr
